@@ -315,10 +315,12 @@ def build(tier="quick", seed=0):
         b.functions.update(sub.functions)
         b.subset_exits += sub.subset_exits
         b.stats["paths"] += sub.stats["paths"]
+    b.replayer("*::alias#*", replay_alias)
     b.replayer("*[maxl*", lambda ob, res: replay(dict(obligation=ob.oid)))
     susceptibility(b)
     limit_21_2(b)
     cpl_ctl(b)
+    quick_tides_rheology_site(b)
     nonneg_ranges(b, tier)
     b.assume("sign / abs of a tidal mode are uninterpreted with abs(x) = sign(x) x, sign(0) = abs(0) = 0, abs(-x) = abs(x)")
     b.assume("-Im k_l enters as an uninterpreted function of (l, complex compliance); the compliance as an uninterpreted function of the frequency value (what compliance_dict_helper computes per unique frequency)")
@@ -520,4 +522,116 @@ def replay(doc):
     bad_zero = "zero_state" in doc["obligation"] and any(abs(v[k]) > 0 for k in ("heating", "dUdM", "dUdw", "dUdO"))
     rec.update(identity_violated=bad_id, grouping_violated=bad_grp, negative_heating=bad_neg, nonzero_at_zero_state=bad_zero)
     rec["confirmed"] = bool(bad_id or bad_grp or bad_neg or bad_zero)
+    return rec
+
+
+_ALIAS_CODE = r'''
+import numpy as np
+from TidalPy.toolbox.quick_tides import quick_tidal_dissipation
+M_HOST, RADIUS, MASS, GRAVITY, DENSITY = 1.9e27, 1.8e6, 8.9e22, 1.8, 3500.
+MOI = 0.4 * MASS * RADIUS**2
+N = 2. * np.pi / (1.77 * 86400.)
+def run(n, spin):
+    r = quick_tidal_dissipation(M_HOST, RADIUS, MASS, GRAVITY, DENSITY, MOI, viscosity=1e16, shear_modulus=5e10, rheology='maxwell', eccentricity=0.05, obliquity=0.1,
+                                orbital_frequency=n, spin_frequency=spin, max_tidal_order_l=2, eccentricity_truncation_lvl=2, use_obliquity=True)
+    return r['tidal_heating'], r['dUdM'], r['dUdO']
+ratios = np.asarray([-1.5, 0.5, 1.5, 3.0])
+arr = run(N * np.ones_like(ratios), N * ratios)
+sca = [run(N, N * x) for x in ratios]
+worst = 0.0
+for k in range(3):
+    for i in range(len(ratios)):
+        a, s = float(np.asarray(arr[k])[i]), float(sca[i][k])
+        worst = max(worst, abs(a - s) / max(abs(s), 1e-300))
+result = dict(worst_relative_difference_array_vs_scalar=worst)
+'''
+
+
+def replay_alias(ob, res):
+    """in-place update through an alias: the public function called with ndarray frequencies must agree element-wise with scalar calls"""
+    from tpv import native
+    r = native.run(dict(code=_ALIAS_CODE), timeout=900)
+    rec = dict(replayed=True, native=r)
+    if "result" not in r:
+        rec["confirmed"] = False
+        return rec
+    w = native.unc(r["result"])["worst_relative_difference_array_vs_scalar"]
+    rec["confirmed"] = bool(w > 1e-9)
+    rec["detail"] = f"quick_tidal_dissipation with ndarray frequencies differs from the scalar calls by a relative {w:.3g}"
+    return rec
+
+
+def quick_tides_rheology_site(b):
+    """call site in quick_tidal_dissipation: the CPL / CTL inputs handed to the helper functions satisfy the helpers' preconditions
+    (fixed_q > 0; time lag dt > 0 - this is what makes -Im k = k2 w dt non-negative) and the default time lag is the documented 1/(Q n)."""
+    import ast
+    FQ = "TidalPy/toolbox/quick_tides.py"
+    try:
+        qt = Fn(FQ, "quick_tidal_dissipation")
+    except ExtractError as e:
+        b.subset_exits.append(str(e))
+        return
+    b.add_fn(qt)
+    sts = find_stmts(qt.node, lambda s: isinstance(s, ast.If) and "rheology.lower()" in ast.unparse(s.test) and "cpl" in ast.unparse(s.test))
+    if len(sts) != 1:
+        b.subset_exits.append(f"{qt.key}: rheology selection statement not found ({len(sts)} candidates)")
+        return
+    k2, Q, n, spin, dtu = R("fixed_k2"), R("fixed_q"), R("orbital_frequency"), R("spin_frequency"), R("fixed_dt_user")
+    pre = [sp.Gt(k2, 0), sp.Gt(Q, 0), sp.Gt(n, 0), sp.Ne(spin, 0), sp.Gt(dtu, 0)]
+    genv = dict(cpl_neg_imk_helper_func=("fn", "cpl_neg_imk_helper_func"), ctl_neg_imk_helper_func=("fn", "ctl_neg_imk_helper_func"), linear_dt=("fn", "linear_dt"))
+    for rh, user_dt in (("ctl", None), ("CTL", dtu), ("cpl", None), ("fixed_q", None)):
+        env = dict(rheology=rh, fixed_k2=k2, fixed_q=Q, fixed_dt=user_dt, orbital_frequency=n, spin_frequency=spin, shear_modulus=R("mu"), viscosity=R("eta"))
+        fr, ex, paths = run_fragment(b, qt, sts, f"rheology_inputs[{rh}{',dt' if user_dt is not None else ''}]", env, pre, globals_env=genv, contracts={}, opts=dict(auto_inline_same_module=False))
+        if not paths:
+            continue
+        tag = f"{rh}{',dt' if user_dt is not None else ''}"
+        for i, p in enumerate(paths):
+            fi = p.env.get("fixed_inputs")
+            ok_shape = p.outcome == "return" and p.env.get("use_cpl_ctl") is True and isinstance(fi, tuple)
+            if rh.lower() == "ctl":
+                ok_shape = ok_shape and len(fi) == 3 and isinstance(fi[2], tuple) and len(fi[2]) == 1 and fi[1] == ("fn", "linear_dt") and p.env.get("rheo_func") == ("fn", "ctl_neg_imk_helper_func")
+                ground(b, f"{qt.key}::ctl_site_shape[{tag}]@path{i}", qt.key, "CTL: rheo_func is the CTL helper and fixed_inputs == (fixed_k2, linear_dt, (dt,))", ok_shape, detail=str(fi)[:200])
+                if not ok_shape:
+                    continue
+                dt = fi[2][0]
+                b.add(Obligation(oid=f"{qt.key}::ctl_site_pre[{tag}]@path{i}", fn=qt.key, clause="precondition of ctl_neg_imk_helper_func at its call site: time lag dt > 0 and k2 as given (for every spin rate, prograde or retrograde)",
+                                 goal=sp.And(sp.Gt(dt, 0), sp.Eq(fi[0], k2)), hyps=list(pre) + p.hyps, meta=dict(dt=str(dt))))
+                b.add(Obligation(oid=f"{qt.key}::ctl_site_default[{tag}]@path{i}", fn=qt.key, clause="the time lag is the user's fixed_dt, or by default 1/(fixed_q * orbital_frequency)",
+                                 goal=sp.Eq(dt, user_dt if user_dt is not None else 1 / (Q * n)), hyps=list(pre) + p.hyps, meta=dict(dt=str(dt))))
+            else:
+                ok = ok_shape and len(fi) == 2 and p.env.get("rheo_func") == ("fn", "cpl_neg_imk_helper_func") and sp.simplify(fi[0] - k2) == 0 and sp.simplify(fi[1] - Q) == 0
+                ground(b, f"{qt.key}::cpl_site[{tag}]@path{i}", qt.key, "CPL: rheo_func is the CPL helper and fixed_inputs == (fixed_k2, fixed_q)", ok, detail=str(fi)[:200])
+    b.replayer(f"{qt.key}::ctl_site_*", replay_ctl_site)
+
+
+_CTL_CODE = r'''
+import numpy as np
+from TidalPy.toolbox.quick_tides import quick_tidal_dissipation
+M_HOST, RADIUS, MASS, GRAVITY, DENSITY = 1.9e27, 1.8e6, 8.9e22, 1.8, 3500.
+MOI = 0.4 * MASS * RADIUS**2
+N = 2. * np.pi / (1.77 * 86400.)
+out = {}
+for ratio in (-2.0, -1.0, 0.5, 2.0):
+    r = quick_tidal_dissipation(M_HOST, RADIUS, MASS, GRAVITY, DENSITY, MOI, rheology='ctl', eccentricity=0.05, obliquity=0.1, orbital_frequency=N, spin_frequency=N * ratio,
+                                max_tidal_order_l=2, eccentricity_truncation_lvl=2, use_obliquity=True, fixed_k2=0.3, fixed_q=100.)
+    r2 = quick_tidal_dissipation(M_HOST, RADIUS, MASS, GRAVITY, DENSITY, MOI, rheology='ctl', eccentricity=0.05, obliquity=0.1, orbital_frequency=N, spin_frequency=N * ratio,
+                                 max_tidal_order_l=2, eccentricity_truncation_lvl=2, use_obliquity=True, fixed_k2=0.3, fixed_q=100., fixed_dt=1.0 / (100. * N))
+    out[str(ratio)] = [float(r['tidal_heating']), float(r2['tidal_heating'])]
+result = out
+'''
+
+
+def replay_ctl_site(ob, res):
+    from tpv import native
+    r = native.run(dict(code=_CTL_CODE), timeout=900)
+    rec = dict(replayed=True, native=r)
+    if "result" not in r:
+        rec["confirmed"] = True
+        rec["detail"] = "the real quick_tidal_dissipation raised / crashed for a CTL world"
+        return rec
+    v = native.unc(r["result"])
+    neg = {k: x for k, x in v.items() if x[0] < 0}
+    dif = {k: x for k, x in v.items() if abs(x[0] - x[1]) > 1e-9 * max(abs(x[1]), 1e-300)}
+    rec["confirmed"] = bool(neg or dif)
+    rec["detail"] = f"CTL heating by spin/n with default dt vs dt = 1/(Q n): negative {neg}; differs from the documented default {dif}"
     return rec
